@@ -127,6 +127,17 @@ class Node(Config):
         _log("post_init", self)
 
 
+class WithDefault(Config):
+    """A parameter whose default value is itself a configuration"""
+
+    __xpmid__ = "vx.withdefault"
+    sub: Param[Leaf] = Leaf(i=1)
+    w: Param[int] = 0
+
+    def __post_init__(self):
+        _log("post_init", self)
+
+
 class DataCfg(Config):
     __xpmid__ = "vx.datacfg"
     x: Param[int] = 0
@@ -223,7 +234,7 @@ class TPass(Task):
         _log("execute", self)
 
 
-CLASSES = {c.__name__: c for c in (Leaf, Leaf2, LeafTwin, Node, DataCfg, LW, T, TOut, Wrap, TInner, TPass)}
+CLASSES = {c.__name__: c for c in (Leaf, Leaf2, LeafTwin, Node, DataCfg, LW, T, TOut, Wrap, TInner, TPass, WithDefault)}
 ENUMS = {"Color": Color, "Shape": Shape}
 
 # --- the harness's own description -----------------------------------------------------
@@ -289,6 +300,13 @@ SPEC = {
             "gen": ("gen", "path", "gen.txt", False),
             "gen2": ("gen", "path", "out.bin", False),
         },
+    },
+    "WithDefault": {
+        "id": "vx.withdefault",
+        "task": False,
+        "lw": False,
+        # the default of `sub` is the configuration Leaf(i=1): "cfgdefault" is compared structurally
+        "params": {"sub": ("p", "cfg:Leaf", ("cfgdefault", "Leaf", {"i": 1}), False), "w": ("p", "int", 0, False)},
     },
     "DataCfg": {
         "id": "vx.datacfg",
